@@ -18,6 +18,8 @@ func c14(c *Ctx) {
 	defer c14inferiors(c)
 	defer c14remoteDeleteClearsSubscription(c)
 	defer c14prefixGuardsNotTooStrict(c)
+	defer c14existingHidesDeletedSubscription(c)
+	defer c.mailboxNamesAreValidated("R14.11")
 	P, R := c.P, c.R
 	R.Explain("R14.1", "pattern injection (T-SOURCE): every operand of regexp.Compile/MustCompile in the server packages is built only from constants and regexp.QuoteMeta results (string concatenation, fmt.Sprintf, strings.ReplaceAll of such parts); a raw configuration or client string in a pattern can make MustCompile panic or change the match.")
 	R.Explain("R14.2", "protection guards (T-DOM): handleCreate/handleDelete refuse INBOX (case-insensitively) before calling the state; the recovery mailbox guards of R20.3.")
@@ -516,4 +518,49 @@ func c14prefixGuardsNotTooStrict(c *Ctx) {
 		}
 	}
 	R.Stats["R14.9 prefix slices compared"] = n
+}
+
+// c14existingHidesDeletedSubscription (R14.10): a mailbox that exists is never listed from the deleted-subscription table.
+func c14existingHidesDeletedSubscription(c *Ctx) {
+	P, R := c.P, c.R
+	R.Explain("R14.10", "LSUB shows a deleted-but-subscribed name only while no mailbox with that remote id exists: in State.List the loop over the existing mailboxes removes each mailbox's remote id from the map of deleted subscriptions on every iteration (the builtin delete is passed on every path from the body's entry back to the loop head) - also for mailboxes that are then skipped because they are not subscribed.  Otherwise a restored, unsubscribed mailbox keeps being listed by LSUB as \\Noselect and UNSUBSCRIBE cannot clear it.")
+	f := c.fn("R14.10", "internal/state.(*State).List")
+	if f == nil {
+		return
+	}
+	n := 0
+	for _, g := range engine.WithClosures(f) {
+		for _, h := range g.Blocks {
+			body := engine.LoopBody(h)
+			if body == nil || len(h.Instrs) == 0 {
+				continue
+			}
+			cut := map[ssa.Instruction]bool{}
+			for b := range body {
+				for _, in := range b.Instrs {
+					call, ok := in.(*ssa.Call)
+					if !ok {
+						continue
+					}
+					if bi, ok := call.Call.Value.(*ssa.Builtin); ok && bi.Name() == "delete" && len(call.Call.Args) > 0 {
+						if mt, ok := call.Call.Args[0].Type().Underlying().(*types.Map); ok && strings.Contains(mt.Elem().String(), "DeletedSubscription") {
+							cut[call] = true
+						}
+					}
+				}
+			}
+			if len(cut) == 0 {
+				continue
+			}
+			n++
+			bad := false
+			for _, s := range h.Succs {
+				if body[s] && s != h && engine.ReachesAvoidingFrom(s, 0, h.Instrs[0], cut, nil) {
+					bad = true
+				}
+			}
+			R.Check(!bad, "R14.10", c.name(f)+"|every existing mailbox hides its deleted subscription", P.Pos(firstPosOf(h)), "the delete is passed in every iteration", "an iteration of the loop over the existing mailboxes can skip the removal from the deleted-subscription map: an existing (unsubscribed) mailbox is then also reported by LSUB from the stale entry")
+		}
+	}
+	R.Min("R14.10", "loops removing existing mailboxes from the deleted subscriptions", n, 1)
 }
